@@ -496,6 +496,8 @@ func c4forms(t c4T, thorough bool) []*c4form {
 		add("map store "+cs, nil, "any", "m := map[int]"+tn+"{}\nm[1] = "+cs+"\nreturn m[1]", k, nil)
 		add("global store "+cs, nil, "any", "G"+tn+" = "+cs+"\nreturn G"+tn, k, nil)
 		add("result adoption then use "+cs, []c4T{t}, "any", "v := id"+tn+"("+cs+")\nreturn v + x", func(a []float64) c4res { return c4bin("+", t, c, a[0]) }, nil)
+		add("typed constant "+cs, nil, "any", "const k "+tn+" = "+cs+"\nv := k\nreturn v", k, nil)
+		add("typed constant then use "+cs, []c4T{t}, "any", "const k "+tn+" = "+cs+"\nv := k\nv += x\nreturn v", func(a []float64) c4res { return c4bin("+", t, c, a[0]) }, nil)
 	}
 	// K. conversions T -> U
 	for _, u := range []c4T{c4i8, c4u8, c4i32, c4u32, c4f64} {
@@ -520,6 +522,35 @@ func c4forms(t c4T, thorough bool) []*c4form {
 				op, u := op, u
 				add("x "+op+" y with y "+c4name[u], []c4T{t, u}, tn, "return x "+op+" y", func(a []float64) c4res { return c4shiftMixed(op, t, u, a[0], a[1]) }, nil)
 				add("x "+op+"= y with y "+c4name[u], []c4T{t, u}, tn, "x "+op+"= y\nreturn x", func(a []float64) c4res { return c4shiftMixed(op, t, u, a[0], a[1]) }, nil)
+			}
+		}
+		// L2. an untyped constant shifted by a variable takes its type from where the shift is USED (the declared
+		// type, the result type, the other operand), never from the count; the second parameter is the count
+		consts := []string{"1", "3", "100"}
+		if t == c4i8 || t == c4i32 {
+			consts = append(consts, "-8")
+		}
+		for _, u := range []c4T{c4i8, c4u8, c4i32, c4u32} {
+			for _, cs := range consts {
+				c := c4parseConst(cs)
+				for _, op := range []string{"<<", ">>"} {
+					op, u, cs, c := op, u, cs, c
+					lit := cs
+					if strings.HasPrefix(cs, "-") {
+						lit = "(" + cs + ")"
+					}
+					or := func(a []float64) c4res { return c4shiftMixed(op, t, u, c, a[1]) }
+					add("var z T = "+cs+" "+op+" y with y "+c4name[u], []c4T{t, u}, tn, "var z "+tn+" = "+lit+" "+op+" y\nreturn z", or, nil)
+					add("return "+cs+" "+op+" y with y "+c4name[u], []c4T{t, u}, tn, "return "+lit+" "+op+" y", or, nil)
+					add("z = "+cs+" "+op+" y with y "+c4name[u], []c4T{t, u}, tn, "z := x\nz = "+lit+" "+op+" y\nreturn z", or, nil)
+					add("x + "+cs+" "+op+" y with y "+c4name[u], []c4T{t, u}, tn, "return x + "+lit+op+"y", func(a []float64) c4res {
+						sh := c4shiftMixed(op, t, u, c, a[1])
+						if sh.panics {
+							return sh
+						}
+						return c4bin("+", t, a[0], sh.v)
+					}, nil)
+				}
 			}
 		}
 	}
@@ -609,7 +640,7 @@ const c4perPkg = 250
 
 func c4run(r *report.Run) {
 	thorough := r.Tier == "thorough"
-	r.Rule("forms = operator x type x syntactic position (var op var, op= and ++/-- on 7 lvalue kinds, x = x op y, unary, var op const / const op var / op= const over a constant set, 13 declaration/adoption positions, conversions among all 5 types, shifts with a count of another type); every form is called with every operand tuple: all 256x256 pairs for int8/uint8, the full boundary square for int32/uint32/float64; non-trivial = distinct (form, operands) whose Go result wraps, truncates, changes sign, panics or is a comparison")
+	r.Rule("forms = operator x type x syntactic position (var op var, op= and ++/-- on 7 lvalue kinds, x = x op y, unary, var op const / const op var / op= const over a constant set, 15 declaration/adoption positions (incl. typed constants), conversions among all 5 types, shifts with a count of another type, untyped constants shifted by a variable in four typed contexts); every form is called with every operand tuple: all 256x256 pairs for int8/uint8, the full boundary square for int32/uint32/float64; non-trivial = distinct (form, operands) whose Go result wraps, truncates, changes sign, panics or is a comparison")
 	r.Assume("native Go arithmetic compiled into the harness is the oracle; every form is also compiled and spot-run by the Go toolchain", "32-bit and float64 operands are boundary sets, not all values", "amd64 semantics for float->integer conversions are not relied on: conversions whose result Go leaves implementation-defined are skipped")
 	types := []c4T{c4i8, c4u8, c4i32, c4u32, c4f64}
 	type job struct {
